@@ -2,16 +2,20 @@ package main
 
 import (
 	"bytes"
-	"regexp"
-	"os"
-	"os/exec"
+	"context"
 	"crypto/sha256"
 	"encoding/hex"
 	"encoding/json"
 	"fmt"
 	"hash/fnv"
+	"io"
+	"os"
+	"os/exec"
+	"path/filepath"
+	"regexp"
 	"sort"
 	"strings"
+	"time"
 
 	bornocli "github.com/ah-naf/borno/verifcli"
 	sim "github.com/ah-naf/borno/verifsimrt"
@@ -100,10 +104,10 @@ type Case struct {
 	// expectations (property specific; unused fields stay empty)
 	ExpectStdout   *string  `json:"expect_stdout,omitempty"`
 	ExpectExit     *int     `json:"expect_exit,omitempty"`
-	ExpectErrLine  int      `json:"expect_err_line,omitempty"`  // >0: first diagnostic must name this line
-	ExpectNoRun    bool     `json:"expect_no_run,omitempty"`    // no OUT/READ/NOW/BUILTIN events at all
-	ExpectStderr   string   `json:"expect_stderr,omitempty"`    // "empty" | "nonempty" | ""
-	StripTokens    []string `json:"strip_tokens,omitempty"`     // tokens removed from stdout before comparison
+	ExpectErrLine  int      `json:"expect_err_line,omitempty"` // >0: first diagnostic must name this line
+	ExpectNoRun    bool     `json:"expect_no_run,omitempty"`   // no OUT/READ/NOW/BUILTIN events at all
+	ExpectStderr   string   `json:"expect_stderr,omitempty"`   // "empty" | "nonempty" | ""
+	StripTokens    []string `json:"strip_tokens,omitempty"`    // tokens removed from stdout before comparison
 	Notes          []string `json:"notes,omitempty"`
 	Aux            *Aux     `json:"aux,omitempty"`
 	FaultKind      string   `json:"fault_kind,omitempty"`
@@ -269,15 +273,15 @@ func hash64(s string) uint64 {
 // ---------------------------------------------------------------- statistics
 
 type Stats struct {
-	Cases      int64            `json:"cases"`
-	Runs       int64            `json:"runs"`
-	Ticks      int64            `json:"ticks"`
-	Counters   map[string]int64 `json:"counters"`
+	Cases      int64               `json:"cases"`
+	Runs       int64               `json:"runs"`
+	Ticks      int64               `json:"ticks"`
+	Counters   map[string]int64    `json:"counters"`
 	Distinct   map[string][]uint64 `json:"distinct"` // name -> set of hashes (merged by the driver)
-	ClockMinMs int64            `json:"clock_min_ms"`
-	ClockMaxMs int64            `json:"clock_max_ms"`
-	ClockSpan  int64            `json:"clock_span_ms"` // sum over runs of |last-first| simulated ms
-	Samples    []json.RawMessage `json:"samples"`
+	ClockMinMs int64               `json:"clock_min_ms"`
+	ClockMaxMs int64               `json:"clock_max_ms"`
+	ClockSpan  int64               `json:"clock_span_ms"` // sum over runs of |last-first| simulated ms
+	Samples    []json.RawMessage   `json:"samples"`
 	sets       map[string]map[uint64]struct{}
 }
 
@@ -482,7 +486,7 @@ func (c *EvalCtx) RunAll(cs *Case) []Obs {
 	for i, r := range cs.Runs {
 		var res sim.Result
 		if strings.HasPrefix(r.Role, "fresh-process") {
-			res = execFresh(r.Cfg)
+			res = execFresh(cs.Prop, r.Cfg)
 		} else {
 			res = Exec(r.Cfg)
 		}
@@ -523,22 +527,138 @@ func ptrS(s string) *string { return &s }
 func ptrI(i int) *int       { return &i }
 
 // execFresh runs one configuration in a fresh OS process of this binary.
-func execFresh(cfg sim.Config) sim.Result {
+//
+// The one fault the simulator cannot contain is a Go runtime fatal error (the
+// goroutine stack ceiling): it kills the process, instrumented or not. The
+// instrumented build has larger frames than the shipped one (a Tick call in
+// every function and loop), so it reaches the ceiling earlier. Whether a
+// configuration "kills the interpreter" is therefore settled by the plain
+// build of the same tree, run as a real process over real pipes:
+//   - child died, plain build dies too        -> the death is reported;
+//   - child died, plain build survives        -> an artefact of the larger frames: the child is
+//     run again with twice the stack ceiling to obtain the simulated history
+//     (still dying is harness trouble, exit 2);
+//   - child survived, plain build dies (only asked where death is what the property
+//     judges: C06, C19, C20)                   -> the death is reported.
+//
+// Configurations with an injected stdin error have no real-process twin; for them the
+// child's fate stands.
+func execFresh(prop string, cfg sim.Config) sim.Result {
+	res, died := execChild(cfg, false)
+	plainOK := cfg.StdinErrAt < 0 && os.Getenv("BORNO_PLAIN_BIN") != ""
+	if died != "" {
+		if plainOK {
+			if pd, known := plainDies(cfg); known && pd == "" {
+				res2, died2 := execChild(cfg, true)
+				if died2 != "" {
+					dumpCfg(cfg)
+					fatal2("the instrumented build dies (%s) where the plain build of the same tree survives, even with twice the stack ceiling", died2)
+				}
+				return res2
+			}
+		}
+		return sim.Result{Panic: "fresh process died: " + died, Events: []sim.Event{{Kind: "PANIC", Data: "fresh process died"}}}
+	}
+	if plainOK && (prop == "C06" || prop == "C19" || prop == "C20") {
+		if pd, known := plainDies(cfg); known && pd != "" {
+			return sim.Result{Panic: "fresh process died: plain build: " + pd, Events: []sim.Event{{Kind: "PANIC", Data: "fresh process died"}}}
+		}
+	}
+	return res
+}
+
+func execChild(cfg sim.Config, bigStack bool) (sim.Result, string) {
 	self, err := os.Executable()
 	if err != nil {
 		fatal2("execFresh: %v", err)
 	}
 	b, _ := json.Marshal(cfg)
 	cmd := exec.Command(self, "one")
+	if bigStack {
+		cmd.Env = append(os.Environ(), "VERIF_STACK_X2=1")
+	}
 	cmd.Stdin = bytes.NewReader(b)
 	out, err := cmd.Output()
 	if err != nil {
-		// the child died (Go fatal error): report it as a panic-like outcome
-		return sim.Result{Panic: "fresh process died: " + err.Error(), Events: []sim.Event{{Kind: "PANIC", Data: "fresh process died"}}}
+		// the child died (Go fatal error)
+		return sim.Result{}, err.Error()
 	}
 	var r sim.Result
 	if err := json.Unmarshal(out, &r); err != nil {
 		fatal2("execFresh: %v", err)
 	}
-	return r
+	return r, ""
 }
+
+// plainDies runs the plain build on the configuration's files, arguments and stdin.
+// It returns how the process died ("" if it exited by itself) and whether the answer is
+// known (false on a timeout or when the process could not be started).
+func plainDies(cfg sim.Config) (string, bool) {
+	bin := os.Getenv("BORNO_PLAIN_BIN")
+	dir, err := os.MkdirTemp("", "bornosim-plain-")
+	if err != nil {
+		return "", false
+	}
+	defer os.RemoveAll(dir)
+	for name, f := range cfg.Files {
+		if strings.Contains(name, "..") || filepath.IsAbs(name) {
+			return "", false
+		}
+		os.MkdirAll(filepath.Dir(filepath.Join(dir, name)), 0o755)
+		if err := os.WriteFile(filepath.Join(dir, name), f.Data, 0o644); err != nil {
+			return "", false
+		}
+	}
+	var args []string
+	if len(cfg.Args) > 1 {
+		args = cfg.Args[1:]
+	}
+	ctx, cancel := context.WithTimeout(context.Background(), 5*time.Minute)
+	defer cancel()
+	cmd := exec.CommandContext(ctx, bin, args...)
+	cmd.Dir = dir
+	cmd.Stdin = bytes.NewReader(cfg.Stdin)
+	var se tailBuf
+	cmd.Stdout = io.Discard
+	cmd.Stderr = &se
+	err = cmd.Run()
+	if ctx.Err() != nil {
+		return "", false
+	}
+	if err == nil {
+		return "", true
+	}
+	ee, ok := err.(*exec.ExitError)
+	if !ok {
+		return "", false
+	}
+	if ee.ExitCode() == -1 {
+		return "killed: " + ee.Error(), true
+	}
+	head := se.head()
+	if ee.ExitCode() == 2 && (strings.Contains(head, "fatal error:") || strings.Contains(head, "panic:") || strings.Contains(head, "goroutine ")) {
+		first := head
+		if i := strings.Index(first, "fatal error:"); i >= 0 {
+			first = first[i:]
+		}
+		if i := strings.IndexByte(first, '\n'); i >= 0 {
+			first = first[:i]
+		}
+		return "exit status 2 (" + first + ")", true
+	}
+	return "", true
+}
+
+// tailBuf keeps the first 64 KiB written to it (a Go crash dump can be huge).
+type tailBuf struct{ b []byte }
+
+func (t *tailBuf) Write(p []byte) (int, error) {
+	if room := 65536 - len(t.b); room > 0 {
+		if len(p) < room {
+			room = len(p)
+		}
+		t.b = append(t.b, p[:room]...)
+	}
+	return len(p), nil
+}
+func (t *tailBuf) head() string { return string(t.b) }
